@@ -52,7 +52,7 @@ def table_row(code, digits):
 
 
 def regime(rng, i):
-    edges = [0.2, 1.0, 5.99, 6.0, 6.01, 2e4, 0.35, 0.5, 100.0]
+    edges = [0.2, 1.0, 5.99, 6.0, 6.01, 2e4, 0.35, 0.5, 100.0, 6300.0, 7000.0, 1e4, 2.5, 1.4]
     ratio = edges[i % len(edges)] if i % 2 == 0 else float(10.0 ** rng.uniform(np.log10(0.2), np.log10(2e4)))
     xis = [0.0, 1e-3, 0.05, 0.3, 0.7, 0.95, 0.999]
     xi = xis[i % len(xis)] if i % 3 else float(rng.uniform(0, 0.999))
